@@ -33,8 +33,9 @@ PART = {
                 "mismatch, 1 MiB, incompatible/absent version), byte-field sizes {0,1,2,47,48,49,95,96,97,98,99,1 MiB}, rounds {0,1,2^63,2^64-1}, "
                 "every oneof variant of GossipPacket and dkg.Packet incl. nil payloads and a Dkg bundle inside a gossip packet, Status naming k "
                 "bogus addresses, HTTP non-hex hashes / overflowing rounds / unknown and very long paths; after each request a probe on the same "
-                "endpoint and on one other service must return within 10 s ((k+1)*10 s for status naming k addresses). Non-trivial = the request "
-                "was delivered and both probes ran; distinct by (endpoint,input-class,node-state)",
+                "endpoint and on one other service must return within 10 s ((k+1)*10 s for status naming k addresses; x3 when the binaries carry "
+                "the race detector); then sequences of 1-5 requests drawn from the corpus. Non-trivial = the request was delivered and both "
+                "probes ran; distinct by (endpoint,input-class,node-state) resp. by the sequence",
         "assumptions": ["a probe that does not return is a violation only together with a goroutine dump of the child showing a parked drand frame",
                         "process death is read from the child's exit status and stderr (fatal error / panic)"],
         "race_anchors": ["beaconExists", "KeypairFor", "(*DrandHandler).ChainHashes", "dkg.(*Process)"],
